@@ -26,7 +26,8 @@ reply `[opt, planOk, [feasOk, coversOk, objOk], rolls, [dualFeas, dualBound], mi
              `solve_cg` mirror: its returned value (R_trace), the verified checkers on its own
              output, and the side condition of `cg_mirror_optimal_of_duals` (its unscaled duals
              pass `dualFeasible`); for `solve_bp` the list continues with
-             `[rootConverged, lowerBound, rootIntegral, rootSide, fragile]` (duals = those of the root LP;
+             `[rootConverged, lowerBound, rootIntegral, rootSide, fragile, rootStalls, nodeStalls,
+             stallAcrossInt]` (duals = those of the root LP;
              rootSide: `rolls ≤ ⌈root LP value − eps⌉`, the side condition of `bp_mirror_optimal_of_duals`
              when the root LP was already integral; fragile: a tie was met that doubles decide by
              rounding noise, R_trace is not applied) and `plan` is `null` without incumbent
@@ -40,6 +41,13 @@ def parsePlan (v : Val) : Option Plan := do
     match e with
     | Val.arr [p, c] => some ((← p.toNats?), (← c.toNat?))
     | _ => none
+
+/-- Coverage: the root LP value stalled for ≥ 2 consecutive new columns at a level whose rounded-up
+value exceeds that of the final root LP (a tailing-off cut-off there would overstate the bound). -/
+def stallAcrossInt (eps : Rat) (stallVal rootObj : Option Rat) : Bool :=
+  match stallVal, rootObj with
+  | some v, some q => decide ((q - eps).ceil < (v - eps).ceil)
+  | _, _ => false
 
 def handle (line : String) : String :=
   match request line with
@@ -88,7 +96,7 @@ def handle (line : String) : String :=
           let eps := Solvor.Gen.Cut.bpEps
           let tol := Solvor.Gen.Cut.bpGapTol
           let o : Mirror.BpOut :=
-            if dem.all (· == 0) then ⟨"OPTIMAL", some [], 0, 0, true, 0, true, List.replicate dem.length 0, some 0, false⟩
+            if dem.all (· == 0) then ⟨"OPTIMAL", some [], 0, 0, true, 0, true, List.replicate dem.length 0, some 0, false, 0, none, 0⟩
             else if cs then Mirror.bpCuttingStock w sizes dem mi mn eps tol stop
             else Mirror.bpCustom cols init dem mi mn eps tol stop
           let (f, b) := certify o.rootDuals
@@ -101,11 +109,20 @@ def handle (line : String) : String :=
             Val.ofOpt (fun (p : Plan) => Val.arr (p.map fun pc => Val.arr [Val.ofNats pc.1, Val.int pc.2])) o.plan,
             Val.int o.nodes, Val.bool planOk, Val.bool f, Val.int b, Val.bool raw,
             Val.bool o.rootConverged, Val.int o.lb, Val.bool o.rootIntegral, Val.bool side,
-            Val.bool o.fragile]
+            Val.bool o.fragile, Val.int o.rootStalls, Val.int o.nodeStalls,
+            Val.bool (stallAcrossInt eps o.rootStallVal o.rootObj)]
         else Val.null
       (Val.arr [Val.ofOpt (fun (n : Nat) => Val.int n) opt, Val.bool ok,
         Val.arr (parts.map Val.bool), Val.int r, dual, mirror]).render
     | _, _, _, _, _, _, _, _, _, _, _, _, _, _ => err "bad arguments"
+  | some ("screen", [w, sizes, dem, mi]) =>
+    -- coverage pre-screen: root column generation of the solve_bp mirror only (max_nodes = 0)
+    match w.toNat?, sizes.toNats?, dem.toNats?, mi.toNat? with
+    | some w, some sizes, some dem, some mi =>
+      let eps := Solvor.Gen.Cut.bpEps
+      let o := Mirror.bpCuttingStock w sizes dem mi 0 eps Solvor.Gen.Cut.bpGapTol
+      (Val.arr [Val.int o.rootStalls, Val.bool (stallAcrossInt eps o.rootStallVal o.rootObj)]).render
+    | _, _, _, _ => err "bad arguments"
   | _ => err "bad request"
 
 end Solvor.Cut
